@@ -81,10 +81,10 @@ let parse_hres (s : string) : hresult =
   | _ -> failwith ("bad hres " ^ s)
 
 type ccase = { pw : n list option; app : n list list; tbl : (string * hresult) list; def : hresult; conns : int;
-               steps : (int * string) list }
+               steps : (int * string) list; example : bool }
 
 let parse_case (line : string) : ccase =
-  let c = ref { pw = None; app = []; tbl = []; def = parse_hres "ms(4f4b)"; conns = 1; steps = [] } in
+  let c = ref { pw = None; app = []; tbl = []; def = parse_hres "ms(4f4b)"; conns = 1; steps = []; example = false } in
   List.iter (fun f ->
     match String.index_opt f '=' with
     | None -> ()
@@ -99,6 +99,7 @@ let parse_case (line : string) : ccase =
                               (String.split_on_char ';' v) }
        | "def" -> c := { !c with def = parse_hres v }
        | "conns" -> c := { !c with conns = int_of_string v }
+       | "handler" -> c := { !c with example = (v = "example") }
        | "steps" -> if v <> "-" then
            c := { !c with steps = List.map (fun s -> let j = String.index s ':' in
                                              (int_of_string (String.sub s 0 j), String.sub s (j + 1) (String.length s - j - 1)))
@@ -109,10 +110,7 @@ let parse_case (line : string) : ccase =
 let regexp_src = regexp_from_glob
 let fw_text _ _ = bytes_of_string "ERR"
 
-let run_case (c : ccase) : string =
-  let handle (hs : unit) (_db : z) (call : hcall) : unit * hresult =
-    let key = string_of_bytes (hcall_name call) ^ ":" ^ hex_of_bytes (hcall_key call) in
-    ((), (match List.assoc_opt key c.tbl with Some r -> r | None -> c.def)) in
+let run_case_with : 'h. ('h -> z -> hcall -> 'h * hresult) -> 'h -> ccase -> string = fun handle hs0 c ->
   let ss = { ss_config = (match c.pw with Some p -> [(bytes_of_string "requirepass", p)] | None -> []);
              ss_auths = (match c.pw with Some p -> [AClear ([], p)] | None -> []);
              ss_app = c.app } in
@@ -120,7 +118,7 @@ let run_case (c : ccase) : string =
     (* single connection: the whole byte stream through the receive loop model *)
     let input = List.concat (List.filter_map (fun (_, op) ->
       if op.[0] = 'f' || op.[0] = 'g' then Some (bytes_of_hex (String.sub op 1 (String.length op - 1))) else None) c.steps) in
-    let r = serve handle regexp_src fw_text ss () None input in
+    let r = serve handle regexp_src fw_text ss hs0 None input in
     let ending = (match fst r with EndEOS -> "ret" | EndProtoErr -> "ret" | EndQuit -> "ret" | EndPanic -> "PANIC(model)" | EndFuel -> "FUEL") in
     Printf.sprintf "conn0=%s|%s;;final=0" ending (String.concat "~" (List.map ev_text (trace r)))
   end else begin
@@ -149,11 +147,20 @@ let run_case (c : ccase) : string =
       | _ -> []) c.steps in
     let ops = ops @ List.concat (List.init c.conns (fun i -> if ended.(i) then [] else finish i [])) in
     let ops = ops @ List.init c.conns (fun i -> MEnd (nat_of_int i)) in
-    let m = mrun handle regexp_src fw_text (msys_init ss () (nat_of_int c.conns)) ops in
+    let m = mrun handle regexp_src fw_text (msys_init ss hs0 (nat_of_int c.conns)) ops in
     let parts = List.mapi (fun i mc ->
       Printf.sprintf "conn%d=%s|%s" i (if m.ms_panic then "PANIC(model)" else "ret")
         (String.concat "~" (List.map ev_text (List.rev mc.mc_evs)))) m.ms_conns in
     String.concat ";;" parts ^ ";;final=0"
+  end
+
+let run_case (c : ccase) : string =
+  if c.example then run_case_with prim [] c
+  else begin
+    let handle (hs : unit) (_db : z) (call : hcall) : unit * hresult =
+      let key = string_of_bytes (hcall_name call) ^ ":" ^ hex_of_bytes (hcall_key call) in
+      ((), (match List.assoc_opt key c.tbl with Some r -> r | None -> c.def)) in
+    run_case_with handle () c
   end
 
 let mode_conn _args =
